@@ -355,28 +355,46 @@ def h2Panics (f : H2Facts) : Reply → Bool
   | .noResponse _ => f.alpnAlert
   | _ => !checkHTTP2 f.tls
 
+/-- a step of the http2/scenario gun: `Client.Do` panics inside `shootStep` before anything is reported (in the
+vocabulary of `Model.C10.StepOutcome`: a step that panics without a sample); requests that are never built
+(`prepFails`) never reach the client -/
+def stepOutcomeH2 (h2 : Bool) (f : H2Facts) (c : StepCfg) (r : Reply) : StepOutcome :=
+  if !c.prepFails && (h2 && h2Panics f r) then .received 0 .panic else stepOutcome c r
+
+/-- the http2/scenario gun SENDS a request to a peer that does not negotiate HTTP/2 (steps after a failed step are
+never sent) -/
+def scenarioFatal (h2 : Bool) (f : H2Facts) : List (StepCfg × Reply) → Bool
+  | [] => false
+  | (c, r) :: rest =>
+    if !c.prepFails && (h2 && h2Panics f r) then true
+    else match stepOutcome c r with
+      | .received _ .ok => scenarioFatal h2 f rest
+      | _ => false
+
 /-- one shot of any gun kind against a target -/
 inductive GunShot where
   /-- http / connect gun (`h2 = false`) or http2 gun (`h2 = true`, its client is `panicOnHTTP1Client`) -/
   | http (h2 : Bool) (facts : H2Facts) (cfg : AutoTagCfg) (ammoTag : String) (id : Nat) (path : String) (reply : Reply)
-  | scenario (scn : String) (steps : List (StepCfg × Reply))
+  /-- http/scenario gun (`h2 = false`) or http2/scenario gun (`h2 = true`: the same `panicOnHTTP1Client`) -/
+  | scenario (h2 : Bool) (facts : H2Facts) (scn : String) (steps : List (StepCfg × Reply))
   | grpc (ammoTag : String) (callable : GrpcOutcome)
   | grpcScenario (scn : String) (calls : List (GrpcCallCfg × GrpcReply))
 
-/-- the only condition documented as fatal: the http2 gun meets a target without HTTP/2
+/-- the only condition documented as fatal: an http2 gun (`http2`, `http2/scenario`) meets a target without HTTP/2
 (`panicOnHTTP1Client`: "Will panic and cancel shooting whet target doesn't support HTTP/2"): the peer answered the
 ALPN offer `h2` with the alert "no application protocol", or a response arrived over a connection that is not TLS
 with mutually negotiated `h2` -/
 def GunShot.documentedFatal : GunShot → Bool
   | .http h2 facts _ _ _ _ reply => h2 && h2Panics facts reply
+  | .scenario h2 facts _ steps => scenarioFatal h2 facts steps
   | _ => false
 
 def GunShot.run : GunShot → ShotResult
   | .http h2 facts cfg tag id path reply =>
     let outcome : HttpOutcome := if h2 && h2Panics facts reply then .doPanic else reply.httpOutcome
     shootHttp cfg { ammoTag := tag, id := id, path := path, outcome := outcome }
-  | .scenario scn steps =>
-    shootScenario scn (steps.map fun (c, r) => { name := c.name, outcome := stepOutcome c r })
+  | .scenario h2 facts scn steps =>
+    shootScenario scn (steps.map fun (c, r) => { name := c.name, outcome := stepOutcomeH2 h2 facts c r })
   | .grpc tag o => shootGrpc tag o
   | .grpcScenario scn calls =>
     shootGrpcScenario scn (calls.map fun (c, r) => { tag := c.tag, outcome := grpcStepOutcome c r })
